@@ -211,3 +211,63 @@ func TestVF_C10_ReproS11(t *testing.T) {
 			"neither the old data nor the imported snapshot: %s", first, last, strings.Join(bad, "; "))
 	}
 }
+
+// TestVF_C10_ReproS13 is the minimal reproduction of finding S13 (fixed in
+// /repo): when tan opens a db whose newest log file has no index file (the
+// process died before it could close), it rebuilds the index from the log and
+// makes the index durable - but not the log. Records at the tail of that log
+// that had been written and not yet fsynced (a state change that only moves the
+// commit index is written without fsync by design; an interrupted save is another
+// source) may have survived the first failure in the OS cache; they are indexed,
+// exposed to raft, and lost by the next power failure while the durable index
+// keeps pointing at them.
+func TestVF_C10_ReproS13(t *testing.T) {
+	st := vfhelp.NewStats("TestVF_C10_ReproS13", "fixed reproduction of S13 (tan open: rebuilt index durable before the log tail it describes)")
+	defer st.Flush()
+	st.Set("exhaustive", true) // fixed case(s), nothing sampled
+	mem := vfs.NewStrictMem()
+	ctl := NewFSCtl(mem)
+	fs := NewCtlFS(mem, ctl)
+	open := tanOpener(false)
+	db := mustOpen(t, fs, open)
+	must(t, db.SaveRaftState([]pb.Update{
+		{ShardID: 1, ReplicaID: 1, State: pb.State{Term: 5, Vote: 2, Commit: 1}, EntriesToSave: mkEntries(1, 3, 5)},
+	}, 2)) // fsynced
+	must(t, db.SaveRaftState([]pb.Update{
+		{ShardID: 1, ReplicaID: 1, State: pb.State{Term: 5, Vote: 2, Commit: 3}}, // commit only: written, no fsync
+	}, 2))
+	// first failure: the process dies before it can close the db (no index file is
+	// written); the unsynced tail of the log survives because the OS had already
+	// written it back
+	ctl.ForceCut()
+	torn := ctl.Torn()
+	_ = db.Close()
+	if torn == nil || len(torn.Data) == 0 {
+		t.Fatalf("the commit-only state change left no unsynced bytes in the log")
+	}
+	if !PowerCycle(mem, torn, len(torn.Data)) {
+		t.Fatalf("could not re-apply the unsynced tail %+v", torn)
+	}
+	t.Logf("unsynced tail: %d bytes of %s (synced length %d)", len(torn.Data), torn.Path, torn.Synced)
+	// recovery
+	db = mustOpen(t, mem, open)
+	rs, err := db.ReadRaftState(1, 1, 0)
+	t.Logf("after the first recovery: ReadRaftState = %+v, err %v", rs, err)
+	if err != nil || rs.State.Term != 5 || rs.State.Vote != 2 {
+		t.Fatalf("first recovery lost the fsynced hard state: %+v %v", rs, err)
+	}
+	// second failure right after the recovery: the power goes
+	mem.SetIgnoreSyncs(true)
+	_ = db.Close()
+	mem.ResetToSyncedState()
+	mem.SetIgnoreSyncs(false)
+	db = mustOpen(t, mem, open)
+	defer db.Close()
+	rs2, err := db.ReadRaftState(1, 1, 0)
+	t.Logf("after the power cut that followed the recovery: ReadRaftState = %+v, err %v", rs2, err)
+	st.Case([]byte("s13"), true, "repro")
+	if err != nil || rs2.State.Term != 5 || rs2.State.Vote != 2 || rs2.EntryCount != 3 {
+		vfhelp.Fail(t, "tan-recovery-index-durable-before-log-tail", "hard state {term 5 vote 2} and entries 1..3 were fsynced, a commit-only change was written without fsync, "+
+			"the process died, tan recovered (state %+v), the power went right after the recovery: ReadRaftState = %+v, err %v", rs.State, rs2, err)
+	}
+}
